@@ -124,7 +124,9 @@ def check_rmi(ctx, rep, cl):
             pfx = ("ifexp", ("compare", ("in",), (("const", "prefix"), ("call", ("attr", m, "groupdict"), (), ()))), ("call", ("attr", m, "group"), (("const", "prefix"),), ()), ("const", ""))
             av_call = ("call", ("global", fn.module.name, f_av.name), (("call", ("attr", m, "group"), (idx_t,), ()), r.lookup, r.reserved, r.salt), ())
             want = ("binop", "+", pfx, av_call)
-            rep.ob(cl + ".replacement-value", fn.name, body == want,
+            has_pfx = bp.truth(pfx[1])
+            forked = (has_pfx is True and body == ("binop", "+", pfx[2], av_call)) or (has_pfx is False and body == ("binop", "+", pfx[3], av_call))
+            rep.ob(cl + ".replacement-value", fn.name, body == want or forked,
                    "replacement is %s; expected prefix-group text (or '') + _anonymize_value(match.group(index), lookup, reserved_words, salt)" % show(body)[:260], wb, key=cl + ".replacement-value|replace_matching_item")
             if not callable_repl:
                 out["template_sub"].append((s, wb))
